@@ -85,6 +85,11 @@ class BaseCtx(object):
     def true(self, label, cond, when=None):
         self.claims.append(Claim(label, 'true', cond, None, when))
 
+    def defined(self, label, value, when=None):
+        """the value is produced without any undefined operation (division by zero, root/log of a negative,
+        ...): its definedness side conditions are ASSERTED here instead of assumed"""
+        self.claims.append(Claim(label, 'defined', value, None, when))
+
 
 class SymCtx(BaseCtx):
     symbolic = True
@@ -287,6 +292,12 @@ def V(name):
 
 def _claim_term(c):
     """bool Term of a claim (symbolic), and the list of Terms whose definedness it needs."""
+    if c.kind == 'defined':
+        t = T.TRUE
+        w = None
+        if c.when is not None:
+            w = c.when.t if isinstance(c.when, SymBool) else (c.when if isinstance(c.when, T.Term) else T.boolc(bool(c.when)))
+        return t, w
     if c.kind == 'true':
         t = c.a.t if isinstance(c.a, SymBool) else (T.boolc(bool(c.a)) if not isinstance(c.a, T.Term) else c.a)
     else:
@@ -305,6 +316,13 @@ def _num_claim_violated(c, tol):
         return (False, 0.0, 'precondition false at the witness')
     if c.kind == 'true':
         return ((not bool(c.a)), 1.0 if not bool(c.a) else 0.0, 'boolean claim')
+    if c.kind == 'defined':
+        try:
+            v = float(c.a)
+        except Exception as e:
+            return (True, float('inf'), 'value not a real number: %s' % e)
+        bad = not math.isfinite(v)
+        return (bad, float('inf') if bad else 0.0, 'value=%r' % v)
     a = float(c.a)
     b = float(c.b)
     if c.scale is not None:
@@ -460,6 +478,30 @@ def _decide(ob, tier, res):
             label = '%s[path%d]' % (c.label, pi) if len(paths) > 1 else c.label
             try:
                 ct, when = _claim_term(c)
+                if c.kind == 'defined':
+                    vt = lift(c.a)
+                    if vt is None:
+                        # a plain Python value: defined iff it is a finite number
+                        ok = isinstance(c.a, (int, float, np.floating, np.integer)) and math.isfinite(float(c.a))
+                        if ok:
+                            res['discharged'] += 1
+                        else:
+                            res['violations'].append({'obligation': ob.id, 'label': c.label, 'claim': label,
+                                                      'assertion': 'value is %r on this path' % (c.a,), 'witness': {}, 'witness_float': {},
+                                                      'replay': {'reproduced': True, 'detail': 'non-finite constant output'}})
+                        continue
+                    zdef = enc.defined(vt)
+                    zb2 = [enc.tr(t_) for t_ in base]      # path condition WITHOUT its own definedness assumptions
+                    ex2 = [enc.tr(when)] if when is not None else []
+                    res['distinct_claims'].append(hashlib.sha1(str(zdef).encode()).hexdigest()[:10])
+                    v = smt.solve(enc, zb2 + ex2 + [z3not(zdef)], ob.timeout_s, label=ob.id + ':' + label)
+                    if v.status == 'unsat':
+                        res['discharged'] += 1
+                    elif v.status == 'unknown':
+                        res['inconclusive'].append({'label': label, 'reason': 'solver: unknown (%s) after %.0fs' % (v.reason, v.seconds)})
+                    else:
+                        _handle_witness(ob, enc, c, T.TRUE, zdef, zb2 + ex2, v, label, res, cache)
+                    continue
                 if ct is T.TRUE:
                     res['discharged'] += 1
                     res['notes'].append('%s: constant-folded to true by the encoder' % label)
@@ -771,6 +813,16 @@ def replay_claim(ob, env, label, cache=None):
         if worst is None or rel > worst[1]:
             worst = (viol, rel, detail)
     if worst is None:
+        if getattr(ob, 'replay_any_violation', False):
+            # the float run took another route (e.g. an exception where the real-arithmetic path continued):
+            # any violated claim of the same obligation at this input confirms the witness
+            for c in cx.claims:
+                try:
+                    viol, rel, detail = _num_claim_violated(c, c.tol if c.tol is not None else ob.replay_tol)
+                except Exception:
+                    continue
+                if viol:
+                    return {'reproduced': True, 'rel_residual': rel, 'detail': 'on the real code this input gives: %s (%s)' % (c.label, detail)}
         return {'reproduced': False, 'detail': 'claim %s not produced on the concrete path' % label}
     return {'reproduced': bool(worst[0]), 'rel_residual': worst[1], 'detail': worst[2]}
 
